@@ -201,21 +201,21 @@ def r1(ck, F):
                    locals().get("conv") or "expected exactly one try_close(parent) on the Some edge of self.parent.take()", fn=cl.path)
 
 
-def r2(ck, F):
+def r2(ck, F, rid="C05.R2"):
     tc = F.body(COLLECT_REG + "try_close")
-    if not ck.anchor("C05.R2", "Registry::try_close", tc):
+    if not ck.anchor(rid, "Registry::try_close", tc):
         return
     subs = [(bb, t) for bb, t in tc.calls() if t["callee"].get("method") == "fetch_sub"]
     if len(subs) != 1:
-        ck.bad("C05.R2", "one fetch_sub", where(tc.raw["sp"]), "found %d fetch_sub sites" % len(subs))
+        ck.bad(rid, "one fetch_sub", where(tc.raw["sp"]), "found %d fetch_sub sites" % len(subs))
         return
     sbb, st = subs[0]
     o = ordering_of(tc, st["argv"][2])
     amt = const_int(tc, st["argv"][1])
     if amt == 1 and ORD_RANK.get(o, 0) >= 1 and o != "Acquire":
-        ck.ok("C05.R2", "fetch_sub(1, >=Release)", detail=o, fn=tc.path)
+        ck.ok(rid, "fetch_sub(1, >=Release)", detail=o, fn=tc.path)
     else:
-        ck.bad("C05.R2", "fetch_sub(1, >=Release)", where(st["sp"]), "fetch_sub(%s, %s)" % (amt, o), fn=tc.path)
+        ck.bad(rid, "fetch_sub(1, >=Release)", where(st["sp"]), "fetch_sub(%s, %s)" % (amt, o), fn=tc.path)
     fences = [bb for bb, t in tc.calls() if t["callee"].get("path") == "core::sync::atomic::fence"
               and ORD_RANK.get(ordering_of(tc, t["argv"][0]), 0) >= 1 and ordering_of(tc, t["argv"][0]) != "Release"]
     true_paths = 0
@@ -260,10 +260,10 @@ def r2(ck, F):
         else:
             bad.append("returns a non-constant %s" % show(p.ret))
     if not bad and true_paths >= 1:
-        ck.ok("C05.R2", "true only when the previous count was 1", fn=tc.path, detail="%d true-returning path(s), all behind !(prev > 1) and fence(Acquire)" % true_paths)
-        ck.ok("C05.R2", "Acquire fence dominates the true return", fn=tc.path)
+        ck.ok(rid, "true only when the previous count was 1", fn=tc.path, detail="%d true-returning path(s), all behind !(prev > 1) and fence(Acquire)" % true_paths)
+        ck.ok(rid, "Acquire fence dominates the true return", fn=tc.path)
     else:
-        ck.bad("C05.R2", "true only when the previous count was 1", where(tc.raw["sp"]), "; ".join(sorted(set(bad))) or "no path returns true", fn=tc.path)
+        ck.bad(rid, "true only when the previous count was 1", where(tc.raw["sp"]), "; ".join(sorted(set(bad))) or "no path returns true", fn=tc.path)
 
 
 def r3(ck, F):
